@@ -28,3 +28,5 @@ OBLIGATIONS = [
 ] + [dict(o, id=o['id'].replace('C02.frame', 'C04.guard')) for o in C02.OBLIGATIONS if o['id'].startswith('C02.frame')]
 # the nodal table of a depth surface (corner defaults merged with listed points) decides the vertical extent of an area feature: same obligation as C11.merge
 OBLIGATIONS = OBLIGATIONS + [dict(o, id='C04.merge') for o in __import__('C11').OBLIGATIONS if o['id'] == 'C11.merge']
+# the global depth guards that parse_entries derives from the depth tables (pre-test before the depth surfaces are evaluated): same obligation as C11.guard
+OBLIGATIONS = OBLIGATIONS + [dict(o, id='C04.depthguard') for o in __import__('C11').OBLIGATIONS if o['id'] == 'C11.guard']
